@@ -326,7 +326,7 @@ pub fn judge(c: &Case, r: &RunResult, rec: &CaseRec) -> Check {
                                 "channel {} at {:?}: {}/{} accepted messages delivered, senders_done={}, no closure reported and the association silent (heartbeats only) for {:.1}s; not yet returned/issued: {:?}; A: {} | B: {}; trace: {}",
                                 ch.id, recv_side, delivered_ops.len(), accepted, r.senders_done,
                                 r.end_us.saturating_sub(last_activity_us(&r.trace)) as f64 / 1e6,
-                                unsent, r.diag[0], r.diag[1], describe_trace(&r.trace, 40)
+                                unsent, r.diag[0], r.diag[1], describe_trace_tail(&r.trace, 24)
                             ),
                         ));
                     }
